@@ -88,6 +88,17 @@ reg(
     "DESIGN.md 5/C10",
 )
 
+reg(
+    "C03",
+    "explicit-state BFS over the real stream strategies / budget managers; in every reachable state every query of the alphabet is judged by a purity oracle (repeat equality, per-attribute fingerprints incl. generator state/position, behavioural continuation equivalence, get_params)",
+    "Every state reachable by chunked query/update histories up to the horizon is materialised as a real object; in each state "
+    "every query is executed twice and compared, every pre-existing attribute (nested manager, windows, thresholds, generator) is "
+    "fingerprinted before/after, and all continuations of depth <= 2 are compared between the pristine object and one on which "
+    "all queries were called, under a model generator (stream position) and under real seeded generators.",
+    STREAM_NOTE,
+    "DESIGN.md 5/C03",
+)
+
 
 def main():
     props = [json.loads(l) for l in open(os.path.join(HOME, "properties.jsonl"))]
